@@ -79,6 +79,7 @@ def check_harmonics(run, table):
             continue
         run.count(("sYlm", s, l, m))
         got = mt.sYlm(s, l, m, TH, PH)
+        got = np.broadcast_to(np.asarray(got, dtype=complex), TH.shape)      # a degenerate sum returns a scalar
         want = np.array([[exact_value(coef, fac2, c, d, m, ph) for ph in phis] for c, d in pts])
         err = np.abs(got - want).max()
         if not err <= 1e-11 * max(1.0, np.abs(want).max()):
@@ -234,19 +235,21 @@ def check_extraction(run):
     import aurel.core as core
     import aurel.maths as mt
     from .. import fields
-    modes = [(2, 0), (2, 1), (3, -1)]
+    modes = [((2, 0), (0.0, 0.0, 0.0)), ((2, 1), (0.0, 0.0, 0.0)), ((3, -1), (0.0, 0.0, 0.0)),
+             ((2, 1), (0.1, -0.15, 0.2)), ((2, -1), (-0.2, 0.05, 0.1))]       # also spheres that are not centred on the grid
     R = 0.8
-    for (l0, m0) in modes:
+    for (l0, m0), cen in modes:
         errs = []
         for N in (16, 32, 64):
             Lbox = 1.2
             h = 2 * Lbox / (N - 1)
             fd = fields.make_fd(N=N, order=4, h=h, origin=(-Lbox, -Lbox, -Lbox))
-            rel = core.AurelCore(fd, verbose=False, lmax=3, extract_radii=[R], center=(0.0, 0.0, 0.0), interp_method="linear")
-            r = np.sqrt(fd.x ** 2 + fd.y ** 2 + fd.z ** 2)
+            rel = core.AurelCore(fd, verbose=False, lmax=3, extract_radii=[R], center=cen, interp_method="linear")
+            X, Y, Z = fd.x - cen[0], fd.y - cen[1], fd.z - cen[2]
+            r = np.sqrt(X ** 2 + Y ** 2 + Z ** 2)
             rs = np.where(r == 0, 1.0, r)
-            th = np.arccos(np.clip(fd.z / rs, -1, 1))
-            ph = np.arctan2(fd.y, fd.x)
+            th = np.arccos(np.clip(Z / rs, -1, 1))
+            ph = np.arctan2(Y, X)
             psi4 = (1.0 + 0.5 * r ** 2) * mt.sYlm(-2, l0, m0, th, ph)
             zero = np.zeros(fd.x.shape, dtype=complex)
             rel.data["Weyl_Psi"] = [zero, zero, zero, zero, psi4]
@@ -254,11 +257,11 @@ def check_extraction(run):
             want = 1.0 + 0.5 * R ** 2
             e = max(abs(out[(l, m)] - (want if (l, m) == (l0, m0) else 0.0)) for l in range(2, 4) for m in range(-l, l + 1))
             errs.append(e)
-        run.count(("Psi4_lm", l0, m0))
-        run.info.setdefault("extraction_errors_at_16_32_64", {})[f"{l0},{m0}"] = [float(e) for e in errs]
+        run.count(("Psi4_lm", l0, m0, cen))
+        run.info.setdefault("extraction_errors_at_16_32_64", {})[f"{l0},{m0} about {cen}"] = [float(e) for e in errs]
         if not (errs[2] < 2e-2 * abs(want) and errs[2] < errs[1] / 2 and errs[1] < errs[0] / 2):
-            run.violation({"clause": "ExtractionReturnsAmplitude", "l": l0, "m": m0},
-                          f"Psi4_lm of g(r) x (-2)Y_{l0}{m0} at R = {R}: largest coefficient error {errs} on 16^3, 32^3, 64^3 grids "
+            run.violation({"clause": "ExtractionReturnsAmplitude", "l": l0, "m": m0, "centred": cen == (0.0, 0.0, 0.0)},
+                          f"Psi4_lm of g(r) x (-2)Y_{l0}{m0} about the centre {cen} at R = {R}: largest coefficient error {errs} on 16^3, 32^3, 64^3 grids "
                           f"(the amplitude is {want}); expected to converge with the resolution", {"l": l0, "m": m0})
         else:
             run.traces += 1
